@@ -13,6 +13,8 @@ pub mod shrink;
 pub mod surgery;
 #[cfg(feature = "full")]
 pub mod lincode;
+#[cfg(feature = "full")]
+pub mod hiding;
 
 use scenario::Scenario;
 use seams::mix64;
